@@ -489,6 +489,16 @@ class PE(object):
       if t != "__name__ == '__main__'":
         self.exec_stmt(st, [g], module)
 
+  def class_attr_assigned(self, ci, name):
+    """(found, value) of a class attribute assigned at run time, looked up
+    along the MRO of `ci`."""
+    table = self.__dict__.get("_class_attr_set")
+    if table:
+      for c in ci.mro():
+        if (id(c), name) in table:
+          return True, table[(id(c), name)]
+    return False, None
+
   def class_attr_value(self, owner, name, expr):
     """A class-level attribute is evaluated once, when the class body runs:
     a mutable value (a dict used as a cache, a list) is one object shared
@@ -747,6 +757,11 @@ class PE(object):
                                          obj.attrs.get(name, _MISSING))
       obj.attrs[name] = val
       self.stores.append((obj, name, val))
+    elif isinstance(obj, ClassRef):
+      # `cls.name = value`: an attribute of THAT class (subclasses see it
+      # through the MRO, its parents do not)
+      self.__dict__.setdefault("_class_attr_set", {})[(id(obj.cls),
+                                                        name)] = val
     elif isinstance(obj, Tensor):
       pass
     else:
@@ -766,6 +781,9 @@ class PE(object):
         if name in owner.classmethods:
           f.self_obj = ClassRef(obj.cls)
         return f
+      found, val = self.class_attr_assigned(obj.cls, name)
+      if found:
+        return val
       owner, expr = obj.cls.find_class_attr(name)
       if expr is not None:
         return self.class_attr_value(owner, name, expr)
@@ -802,6 +820,9 @@ class PE(object):
         if name in owner.classmethods:
           f.self_obj = obj
         return f
+      found, val = self.class_attr_assigned(obj.cls, name)
+      if found:
+        return val
       owner, expr = obj.cls.find_class_attr(name)
       if expr is not None:
         return self.class_attr_value(owner, name, expr)
@@ -1492,6 +1513,8 @@ class PE(object):
                                             Obj, Mock)):
       return fn(self, args, kwargs)
     if isinstance(fn, Mock) and "__call__" in fn.attrs:
+      # (a stand-in may ask which object was called)
+      self.__dict__["_current_callee"] = fn
       return fn.attrs["__call__"](self, args, kwargs)
     if isinstance(fn, Obj):
       owner, f = fn.cls.find_method("__call__")
@@ -1833,6 +1856,7 @@ BUILTINS = {
     "AttributeError", "AssertionError", "SyntaxError", "Exception", "cast",
     "NotImplementedError", "KeyError", "reversed", "map", "id", "setattr",
     "issubclass", "divmod", "UnboundLocalError", "IndexError", "filter",
+    "frozenset",
 }
 
 
